@@ -354,7 +354,70 @@ func serverFacts(p *packages.Package, instrDir string) (map[string][]string, err
 	return res, nil
 }
 
-func writeServerLean(out string, steps map[string][]string) error {
+
+// RetryFact: the EMFILE back-off loop of server.OnRead (model: lean/Netpoll/ServerRetry.lean) - the delay
+// table (constant elements of the slice literal), the guard in front of the index increment, and every index
+// expression into the table, as source text.  Empty when the function has no such loop.
+type RetryFact struct {
+	Table   []string `json:"table"`
+	Guard   string   `json:"guard"`
+	Indexed []string `json:"indexed"`
+}
+
+func retryFacts(p *packages.Package) RetryFact {
+	var rf RetryFact
+	for _, f := range p.Syntax {
+		for _, d := range f.Decls {
+			fd, ok := d.(*ast.FuncDecl)
+			if !ok || fd.Body == nil || recvName(fd) != "server" || fd.Name.Name != "OnRead" {
+				continue
+			}
+			var table types.Object
+			ast.Inspect(fd.Body, func(n ast.Node) bool {
+				switch x := n.(type) {
+				case *ast.AssignStmt:
+					// <table> := []T{c0, c1, ...} with constant elements
+					if table != nil || len(x.Lhs) != 1 || len(x.Rhs) != 1 {
+						return true
+					}
+					cl, ok := x.Rhs[0].(*ast.CompositeLit)
+					id, ok2 := x.Lhs[0].(*ast.Ident)
+					if !ok || !ok2 || len(cl.Elts) == 0 {
+						return true
+					}
+					if _, isSlice := p.TypesInfo.TypeOf(cl).Underlying().(*types.Slice); !isSlice {
+						return true
+					}
+					var vals []string
+					for _, e := range cl.Elts {
+						tv, ok := p.TypesInfo.Types[e]
+						if !ok || tv.Value == nil {
+							return true
+						}
+						vals = append(vals, tv.Value.ExactString())
+					}
+					rf.Table = vals
+					table = p.TypesInfo.ObjectOf(id)
+				case *ast.IfStmt:
+					// if <guard> { <index>++ }
+					if len(x.Body.List) == 1 && x.Else == nil && x.Init == nil {
+						if inc, ok := x.Body.List[0].(*ast.IncDecStmt); ok && inc.Tok == token.INC && rf.Guard == "" {
+							rf.Guard = exprStr(p.Fset, x.Cond)
+						}
+					}
+				case *ast.IndexExpr:
+					if id, ok := x.X.(*ast.Ident); ok && table != nil && p.TypesInfo.ObjectOf(id) == table {
+						rf.Indexed = append(rf.Indexed, exprStr(p.Fset, x))
+					}
+				}
+				return true
+			})
+		}
+	}
+	return rf
+}
+
+func writeServerLean(out string, steps map[string][]string, rf RetryFact) error {
 	var b strings.Builder
 	b.WriteString("/- GENERATED by /verif/tools/extract from /repo on every check run.  Do not edit.\n")
 	b.WriteString("   Ordered statement lists (\"<depth> <kind>:<callees>\") of the server / event-loop methods. -/\n")
@@ -374,6 +437,26 @@ func writeServerLean(out string, steps map[string][]string) error {
 		}
 		b.WriteString("]\n\n")
 	}
+	b.WriteString("/-- EMFILE back-off loop of server.OnRead: delay table, guard of the index increment, index expressions -/\n")
+	fmt.Fprintf(&b, "def server_OnRead_retryTable : List Nat := [%s]\n", strings.Join(natOnly(rf.Table), ", "))
+	fmt.Fprintf(&b, "def server_OnRead_retryGuard : String := %s\n", leanStr(rf.Guard))
+	qs := make([]string, len(rf.Indexed))
+	for i, x := range rf.Indexed {
+		qs[i] = leanStr(x)
+	}
+	fmt.Fprintf(&b, "def server_OnRead_retryIndexed : List String := [%s]\n\n", strings.Join(qs, ", "))
 	b.WriteString("end Netpoll.Gen.Server\n")
 	return os.WriteFile(filepath.Join(out, "Server.lean"), []byte(b.String()), 0o644)
+}
+
+// natOnly keeps the entries that are natural-number literals (anything else would not be a `Nat` in Lean; a table
+// with such an entry then differs in length from the expected one and the tie lemma fails)
+func natOnly(xs []string) []string {
+	var out []string
+	for _, x := range xs {
+		if _, err := strconv.ParseUint(x, 10, 64); err == nil {
+			out = append(out, x)
+		}
+	}
+	return out
 }
